@@ -128,19 +128,9 @@ def run(ctx):
               A.site(), how="disjunctive dominating fact", why="facts: %s" % [G.show(f)[:160] for f in (facts or [])])
     # who constructs the iterator / sections
     for (adt, allowed, what) in ((ITER, ("sections",), "ElfSectionIter"), (SEC, ("next",), "ElfSection")):
-        ctors = []
-        for k, f in F.fns.items():
-            for bb in f["body"]["blocks"]:
-                if bb.get("cleanup"):
-                    continue
-                for st in bb["s"]:
-                    if st["k"] == "assign" and st["rv"]["k"] == "aggr" and st["rv"].get("adt") == adt:
-                        ctors.append(f)
         from .. import inline as INL
-        # a helper that is not a unit of its own belongs to the functions it is spliced into
-        owners = [o for f in ctors for o in INL.owners_of(F, f)]
-        bad = [f["path"] for f in owners if not f.get("derived") and f.get("name") not in allowed]
-        bad += [f["path"] for f in ctors if INL.is_helper(f) and not INL.owners_of(F, f)]
+        # a helper that is not a unit of its own belongs to the functions it is spliced into; a closure to its enclosing function
+        ctors, bad = INL.constructors_of(F, adt, allowed)
         ctx.check(bool(ctors) and not bad, "E1", "who-constructs:" + what, "%s values are constructed only in %s (and derived Clone/Copy)" % (what, "/".join(allowed)), "",
                   how=str(sorted({str(f.get("name")) for f in ctors})), why=str(bad))
         a = F.adts.get(adt + "<'_>")
